@@ -185,7 +185,7 @@ JudgeConcat(s) ==
   IN [scn |-> s.scn, viol |-> SetToSeq(v), ncalls |-> 1, produced |-> Len(c.out), flush_points |-> 0, full_points |-> 0,
       stats |-> [nblocks |-> IF u.tag = "Valid" THEN Len(u.d.blocks) ELSE 0, match |-> FALSE, types |-> <<>>]]
 
-Judge(s) == IF Len(s.calls) = 0 THEN [scn |-> s.scn, viol |-> <<<<0, "harness-recorded-no-call">>>>, ncalls |-> 0, produced |-> 0, flush_points |-> 0, full_points |-> 0,
+Judge(s) == IF Len(s.calls) = 0 THEN [scn |-> s.scn, viol |-> <<<<0, IF s.end.why = "fault" THEN "C05-memory-fault-in-call" ELSE "harness-recorded-no-call">>>>, ncalls |-> 0, produced |-> 0, flush_points |-> 0, full_points |-> 0,
                                        stats |-> [nblocks |-> 0, match |-> FALSE, types |-> <<>>]]
             ELSE IF s.api = 9 THEN JudgeConcat(s) ELSE IF s.api = 1 THEN JudgeOneShot(s) ELSE JudgeStream(s)
 Out == [i \in 1..Len(Scn) |-> Judge(Scn[i])]
